@@ -80,6 +80,7 @@ REWRITES = {
         r"\bvec!\[\]", r"Vec::new()", "vec![] == Vec::new()"),
     "matches_ws": (
         r"matches!\(\s*(\w+)\s*,\s*Some\(([^()]*)\)\s*\)", None, "matches!(x, Some(p)) == match x { Some(p) => true, _ => false }"),
+    "crate_paths": (r"\bcrate::processor::(Titles|Context)\b", r"\1", "crate::processor::X is the X of this file"),
     "pub_crate": (r"\bpub\(crate\)\s+", r"pub ", "visibility is irrelevant in a single file"),
     "deref_clone": (
         r"(\w+)\.deref\(\)\.clone\(\)", r"vrc::deref_clone(&\1)", "Rc<T>::deref().clone() clones the pointee"),
@@ -142,6 +143,7 @@ class FnSpec:
         self.safety, self.ret, self.rewrites = [], None, []
         self.header, self.loops, self.before, self.after, self.body_start = [], {}, [], [], []
         self.loop_iter = {}
+        self.after_loops = {}
         self.assume = False
         self.header_files = []
         self.sig_rewrites = []
@@ -227,6 +229,8 @@ def parse_template(path):
                         target = fs.loops.setdefault(int(w[1]), [])
                         if len(w) >= 4 and w[2] == "iter":
                             fs.loop_iter[int(w[1])] = w[3]
+                    elif d.startswith("after-loop "):
+                        target = fs.after_loops.setdefault(int(d.split()[1]), [])
                     elif d.startswith("before "):
                         target = []
                         fs.before.append((d[len("before "):].strip().strip('"'), target))
@@ -418,10 +422,10 @@ def build_fn(fs, canary=False):
                             in_end = btoks[jj].end
                             break
                         jj += 1
-                loop_positions.append((loop_idx, btoks[brace].start, t.text, in_end))
+                loop_positions.append((loop_idx, btoks[brace].start, t.text, in_end, btoks[match_close(btoks, brace)].end))
         k += 1
     for n, lines in fs.loops.items():
-        pos = [(p, ie) for (i_, p, _, ie) in loop_positions if i_ == n]
+        pos = [(p, ie) for (i_, p, _, ie, _e) in loop_positions if i_ == n]
         if not pos:
             raise ExtractError("lost anchor: %s has no loop #%d (found %d)" % (fs.id, n, len(loop_positions)))
         inserts.append((pos[0][0], "split", lines))
@@ -430,6 +434,11 @@ def build_fn(fs, canary=False):
                 raise ExtractError("lost anchor: loop #%d of %s is not a `for .. in` loop" % (n, fs.id))
             # ghost name of the iterator (Verus `for x in it: expr`): a pure insertion on its own line
             inserts.append((pos[0][1], "split", [" " + fs.loop_iter[n] + ":"]))
+    for n, lines in fs.after_loops.items():
+        pos = [e for (i_, _p, _t, _ie, e) in loop_positions if i_ == n]
+        if not pos:
+            raise ExtractError("lost anchor: %s has no loop #%d" % (fs.id, n))
+        inserts.append((pos[0], "split", lines))
     # body-start
     if fs.body_start:
         inserts.append((1, "after-brace", fs.body_start))
@@ -577,6 +586,9 @@ def build_item(file, path, pre, rewrites):
                             "    fn clone(&self) -> (r: Self) ensures r == *self { unimplemented!() }",
                             "}"]
                 applied.append(["derive_clone", "item", "derive(Clone) replaced by a trusted impl with `ensures r == *self`"])
+            elif d in ("PartialEq", "Eq", "Hash", "Copy", "Debug"):
+                # presence check only: the trusted stand-in impl is written in the prelude next to the item
+                applied.append(["derive_" + d.lower(), "item", "derive(%s) is present in the source; its stand-in is declared in the prelude" % d])
             else:
                 raise ExtractError("no stand-in for derive(%s)" % d)
     l0 = _line_of(src, a)
